@@ -11,7 +11,7 @@ class _RL(dict):
 UNIT_RLIMIT = _RL({"div_small": 80, "mul_redc": 80})      # unit -> --rlimit (Verus default is 10; 5x head-room over the measured maximum)
 UNIT_TIMEOUT = {"knuth": 1500, "addmul": 900, "mul_redc": 1200}     # unit -> seconds
 UNIT_EXPECT = {       # unit -> minimum number of verified functions on the unchanged tree (vacuity guard)
-    "core": 31, "add": 29, "kernels": 79, "addmul": 71, "addmul_n": 73, "mul": 51, "divd": 45, "div_small": 235, "knuth": 145, "mul_redc": 126, "basics": 22, "pow": 38, "divw": 54, "modular": 70, "spigot": 44, "gcd": 24, "forward": 57, "invring": 47, "bitlen": 81, "shifts": 131, "recip_table": 2, "gcdext": 67, "gcdw": 36, "bits": 78, "conv": 44, "lehmer": 38, "jebelean": 92, "logs": 27, "forward_shift": 81, "fmt_consts": 5, "rotate": 27, "popcount": 29, "conv_slice": 54, "conv_prim": 53, "absdiff": 15, "frombase": 71, "byteslice": 72,
+    "core": 31, "add": 29, "kernels": 79, "addmul": 71, "addmul_n": 73, "mul": 51, "divd": 45, "div_small": 235, "knuth": 145, "mul_redc": 126, "basics": 22, "pow": 38, "divw": 54, "modular": 70, "spigot": 44, "gcd": 24, "forward": 57, "invring": 47, "bitlen": 81, "shifts": 131, "recip_table": 2, "gcdext": 67, "gcdw": 36, "bits": 78, "conv": 44, "lehmer": 38, "jebelean": 92, "logs": 27, "forward_shift": 81, "fmt_consts": 5, "rotate": 27, "popcount": 29, "conv_slice": 54, "conv_prim": 53, "absdiff": 15, "frombase": 71, "byteslice": 72, "padlimbs": 45,
 }
 
 COMMON_TRUST = [
@@ -399,14 +399,16 @@ PROPS = {
     ),
     "C19": dict(
         level="other",
-        level_text="Kani proves bounded contracts of the three pure functions of the proc-macro crate, whose item texts are copied VERBATIM from /repo/ruint-macro/src/lib.rs into the harness crate on every run "
+        level_text="Verus proves pad_limbs (the range check behind `literal >= 2^bits is rejected` and the padding to the target width) for ALL widths and limb vectors of ANY length on the text re-extracted from "
+                   "/repo/ruint-macro/src/lib.rs: Some(v) exactly when the limb string denotes a value < 2^bits, v having exactly ceil(bits/64) limbs and the same value (unit padlimbs). "
+                   "Kani proves bounded contracts of the three pure functions of the proc-macro crate, whose item texts are copied VERBATIM from /repo/ruint-macro/src/lib.rs into the harness crate on every run "
                    "(vf/genmacro.py): parse_digits accepts exactly the digit strings of the base selected by the 0x/0o/0b prefix (underscores ignored) and returns the limbs of the Horner value incl. the carry-push path across 2^64; "
                    "pad_limbs returns Some iff value < 2^bits with exactly ceil(bits/64) limbs of the same value (13 widths 0..192); parse_suffix splits value / U|B / bits exactly per the hex-B ambiguity rule",
-        level_note="BOUNDED (not a proof): strings <= 5 characters over a 16-character alphabet (parse_digits), <= 7 (parse_suffix), limb vectors <= 4; alloc::fmt::format and Vec::push are replaced by Kani stubs "
+        level_note="pad_limbs: proof (ASSUMED there: std's `last() == Some(&0)` and `last().copied().unwrap_or(0)` through N14 wrappers). parse_digits / parse_suffix BOUNDED (not a proof): strings <= 5 characters over a 16-character alphabet (parse_digits), <= 7 (parse_suffix), limb vectors <= 4; alloc::fmt::format and Vec::push are replaced by Kani stubs "
                    "(the real ones exhaust CBMC), the native replay runs the real ones. NOT decided: the Transformer's token-tree traversal and code generation (proc_macro::TokenStream exists only inside rustc), "
                    "literals of several hundred digits, widths up to 4096, error message text",
-        technique="Kani bounded contract harnesses on verbatim-extracted proc-macro functions (extraction drops everything that touches proc_macro::TokenStream)",
-        units=[],
+        technique="deductive contract (Verus, all widths and lengths) on pad_limbs; Kani bounded contract harnesses on verbatim-extracted proc-macro functions (extraction drops everything that touches proc_macro::TokenStream)",
+        units=["padlimbs"],
         kani=dict(features=None, quick=hs("c19"), thorough=hs("c19"), bounds="strings <= 5 / <= 7 chars, vectors <= 4 limbs, bits in {0,1,2,8,63,64,65,100,127,128,129,191,192}"),
         explanation="harness-level contracts with Horner / u128 oracles",
         trusted=COMMON_TRUST + ["stubs: alloc::fmt::format (error text only), Vec::push without reallocation (capacity 4)"],
